@@ -235,7 +235,8 @@ class World:
         base = list(nt.operators)[0]
         kw = {'name': 'derived_op', 'equations': copy.deepcopy(op['edits'])}
         if op.get('variables'):
-            kw['variables'] = dict(op['variables'])
+            kw['variables'] = {k_: (dict(v_, shape=tuple(v_['shape'])) if isinstance(v_, dict) else v_)
+                               for k_, v_ in op['variables'].items()}
         d = base.update_template(**kw)
         return {'status': 'ok', 'n_eqs': len(d.equations)}
 
